@@ -77,6 +77,11 @@ func runC04(c *core.Ctx) {
 			key := tn + "." + m.Name()
 			c.Analysed(core.FuncName(m))
 			e := ei.Of[m]
+			if o := m.Object(); o != nil && !o.Exported() {
+				// an unexported helper is not an operation of the collection: what it writes or hands out is accounted for in
+				// the summaries of the exported operations that call it
+				continue
+			}
 			for k := range e.Externals {
 				ext[k] = true
 			}
@@ -259,8 +264,7 @@ func c04sortByIndex(p *core.Prog, m *ssa.Function) (bool, string) {
 		return false, "the clone is not taken before the in-place sort: the receiver's old order is lost"
 	}
 	// restored value is a load of the clone
-	rv, ok := restore.Val.(*ssa.UnOp)
-	if !ok || core.Resolve(rv.X) != ssa.Value(clone) {
+	if src := core.DerefSource(restore.Val); src == nil || core.Resolve(src) != ssa.Value(clone) {
 		return false, "the value stored back into the receiver is not the clone taken before the sort"
 	}
 	min, _ := core.PathCountFrom(sortCall.Block(), sortCall, func(i ssa.Instruction) int {
